@@ -929,6 +929,14 @@ def router_encap(ctx):
                 alts = [_concat_parts(b_) for a_ in fl.alternatives(c.args[0], st) for b_ in _ifexp_branches(a_)]
                 sec = [ps for ps in alts if any(secured(e) for e in ps)]
                 if not sec:
+                    # no secured alternative at this emission: then the Basic Header sent here must never be the one that was
+                    # re-stamped NH=SECURED_PACKET by the signing block (clear bytes behind NH=SECURED are undecodable)
+                    stamped_here = any(ps and _is_call(ps[0], "encode_to_bytes") and restamped(ps[0].func.value) for ps in alts)
+                    ctx.ob("C05.router-encap", fi.short(), f"secured-packet@{c.lineno - fi.node.lineno}", not stamped_here,
+                           "this emission never carries the re-stamped (NH=SECURED_PACKET) Basic Header" if not stamped_here else
+                           "on the path where the request was signed this emission sends the re-stamped Basic Header (NH=SECURED_PACKET) followed "
+                           "by the CLEAR common/extended header and payload instead of the signed message: receivers cannot decode it and "
+                           "the signed DENM is lost", f"{fi.module.rel}:{c.lineno}")
                     continue
                 good = [ps for ps in sec if len(ps) == 2 and _is_call(ps[0], "encode_to_bytes") and restamped(ps[0].func.value)
                         and isinstance(ps[1], ast.Attribute) and ps[1].attr == "sec_message" and isinstance(ps[1].value, ast.Call)
